@@ -1,7 +1,7 @@
 (* Prop_C03.v — property theorems for C03, and nothing else: each statement is closed
    by `exact <lemma>` and followed by Print Assumptions. *)
 From Dig Require Import Base Sig State Graph GraphProofs Register Resolve Run Spec Check
-  ErrTable Err ErrTableCheck P_Events P_Frame P_Term P_Reg P_C03.
+  ErrTable Err ErrTableCheck P_Events P_Frame P_Term P_Reg P_C03 GoTypes Parse RunRaw P_Glue.
 
 (* ---- C03: registration, Scope and malformed calls never run user code ---- *)
 Theorem C03_registration_silent_partial : forall cfg b du h i o ob,
@@ -21,3 +21,14 @@ Theorem C03_holds : forall cfg b du h,
   chk_C03 h (map obs_of (run cfg b du h)) = [].
 Proof. exact P_C03.chk_C03_ok. Qed.
 Print Assumptions C03_holds.
+
+(* ---- the same for every history dig's own parser produces: `raw_only rh` says that
+        each operation of rh is a Scope call or a Provide / Decorate / Invoke of an
+        arbitrary Go value of the grammar (GoTypes) with arbitrary options;
+        `lower_op` parses it (Parse / RunRaw).  No well-formedness premise on keys
+        is left: the parser establishes it (P_Glue.lowered_wf) ---- *)
+Theorem C03_holds_raw : forall cfg b du rh, raw_only rh ->
+  wf_scopes (map lower_op rh) = true -> P_Once.wf_fns (map lower_op rh) = true ->
+  chk_C03 (map lower_op rh) (map obs_of (run cfg b du (map lower_op rh))) = [].
+Proof. exact P_Glue.C03_raw. Qed.
+Print Assumptions C03_holds_raw.
